@@ -1286,7 +1286,16 @@ def gen_history(rng, shape, nops, flavour='plain'):
                 root = root_of(shape, e)
                 del live[(root, i)]
                 dead.append((root, i))
-    return ops
+    out = []
+    for op in ops:
+        if flavour == 'plain' and op[0] in ('read', 'write', 'destroy') and rng.random() < 0.2:
+            # through an instance that went through pickle.dumps / loads with a cold cache
+            op = ['p' + op[0]] + op[1:]
+        elif op[0] == 'select' and rng.random() < 0.3:
+            # a derived select: conditions added afterwards with .filter()
+            op = ['selectf', op[1], op[2]] + [gen_filter(rng, shape, op[1], 1) for _ in range(rng.choice([1, 1, 2]))]
+        out.append(op)
+    return out
 
 
 def sweep_cases(shape):
@@ -1471,6 +1480,8 @@ def run(ctx):
                  + ('/cold-cache' if cold else '/warm-cache')
                  + ('/small-batches' if any(o[0] == 'batch' for o in ops) else '')
                  + ('/alternate-ids' if any(o[0] == 'byalt' for o in ops) else '')
+                 + ('/pickled' if any(o[0] in ('pread', 'pwrite', 'pdestroy') for o in ops) else '')
+                 + ('/derived-selects' if any(o[0] == 'selectf' for o in ops) else '')
                  + ('/two-databases' if any(o[0] == 'conn' for o in ops) else '')
                  + ('/transaction' if any(o[0] == 'begin' for o in ops) else '')
                  + ('/references' if any(o[0] == 'addref' for o in ops) else ''))
